@@ -6,7 +6,7 @@ import impl
 import engine
 import gens
 import exchange as X
-from docs import to_text, E, mos, ro_delete, story_append, story_move, element_action, ref, ready_to_air, ro_replace
+from docs import to_text, E, mos, ro_delete, story_append, story_move, element_action, ref, ready_to_air, ro_replace, story
 from checks.base import corpus_cases
 
 LEVEL = 'proof'
@@ -188,7 +188,10 @@ class Check:
         ro2 = to_text(gens.make_ro(['X'], message_id=3, ro_id='OTHER'))
         done = impl.run_add(ro, to_text(ro_delete(1)))
         ro_done = X.tree_to_string(done['tree'])            # a completed running order that was written out earlier
-        sets = {'completed-input': {'1.mos.xml': ro_done, '5.mos.xml': app},
+        accented = to_text(story_append(5, [story('N1', slug='Caf\u00e9 \u00c3\u00a9 na\u00efve')]))
+        sets = {'latin1-file': {'1.mos.xml': ro, '5.mos.xml': {'enc': 'iso-8859-1', 'text': accented}, '9.mos.xml': rd},
+                'utf16-file': {'1.mos.xml': {'enc': 'utf-16', 'text': ro}, '5.mos.xml': app, '9.mos.xml': rd},
+                'completed-input': {'1.mos.xml': ro_done, '5.mos.xml': app},
                 'completed-input-delete': {'1.mos.xml': ro_done, '9.mos.xml': rd},
                 'valid': {'1.mos.xml': ro, '5.mos.xml': app, '9.mos.xml': rd},
                 'incomplete': {'1.mos.xml': ro, '5.mos.xml': app},
@@ -244,11 +247,15 @@ class Check:
         import shutil
         want = None
         files = run['files']
+        def content(v):
+            if isinstance(v, dict):
+                return ('<?xml version="1.0" encoding="%s"?>' % v['enc'] + v['text']).encode(v['enc'])
+            return v
         if files and all(v is not None for v in files.values()):
             try:
                 with warnings.catch_warnings():
                     warnings.simplefilter('ignore')
-                    mc = MosCollection.from_strings([files[f] for f in run.get('order') or sorted(files)], allow_incomplete=run['inc'])
+                    mc = MosCollection.from_strings([content(files[f]) for f in run.get('order') or sorted(files)], allow_incomplete=run['inc'])
                     mc.merge(strict=not run['ns'])
                 want = str(mc)
             except Exception:
@@ -296,6 +303,8 @@ class Check:
             toks = []
             for f in (r.get('order') or sorted(r['files'])):
                 c = r['files'][f]
+                if isinstance(c, dict):
+                    c = c['text']
                 if c is None:
                     toks.append('U')
                 else:
@@ -303,7 +312,7 @@ class Check:
                         toks.append('D ' + X.elem_line(impl.parse_doc(c)))
                     except Exception:
                         toks.append('B')
-            es = [impl.parse_doc(c) for c in r['files'].values() if c is not None and c.startswith('<')]
+            es = [impl.parse_doc(c['text'] if isinstance(c, dict) else c) for c in r['files'].values() if c is not None and (isinstance(c, dict) or c.startswith('<'))]
             line = 'clim %s %d %d %d %s' % (engine.oracle_prefix(es), 1 if r['inc'] else 0, 1 if r['ns'] else 0, len(toks), ' '.join(toks))
             mo = engine.run_model([line])[0].split(' ')
             m_status = int(mo[0])
